@@ -54,3 +54,4 @@ Definition the_policy : policy :=
      p_owner_funcs := [fn_listener_Sync] |}.
 
 Definition c12_bad_sites : list (nat * site) := bad_sites the_policy sites.
+Definition c12_bad_calls : list mcall := bad_calls the_policy calls.
